@@ -101,6 +101,16 @@ def gen_time_axis(tier, seed):
     yield from root_cases("C14.time_axis", "v", (True,), (2,), 3, ["even", "uneven", "late"], [0.005], offset=77)
 
 
+def gen_dtypes(tier, seed):
+    """the same series stored in other dtypes of the same kind (the statement says real or complex, not float64 / complex128);
+    the letters are small integers, so every product and sum is exact in every dtype"""
+    T = 3 if tier == "quick" else 4
+    for dt_, cplx in (("complex64", True), ("float32", False), ("int64", False), ("int32", False)):
+        for c in root_cases("C14.dtypes", "svt", (cplx,), (2,), T, ["even", "uneven"], [0.002]):
+            c["dtype"] = dt_
+            yield c
+
+
 def run(case):
     from PyMatterSim.dynamic.time_corr import time_correlation
 
@@ -114,6 +124,8 @@ def run(case):
     ev_steps = case["spacing"] in ("event", "event3")
     events = [m + [k] for m in moves for k in range(len(incs))] if ev_steps else moves
     sig0 = {"shape": case["shape"], "complex": bool(case["cplx"]), "spacing": case["spacing"]}
+    if case.get("dtype"):
+        sig0["dtype"] = case["dtype"]
     queue = collections.deque([list(case["prefix"])])
     seen = set()
     h = hashlib.sha1()
@@ -139,6 +151,8 @@ def run(case):
         seen.add(key)
         states += 1
         snaps = mk_snaps([pos0] * T, H, [1] * N, steps=steps)
+        if case.get("dtype"):
+            x = x.astype(case["dtype"])
         x_in = x.copy()
         res = time_correlation(snaps, x_in, dt=case["dt"])
         t_ref, c_ref, c0, linear = RD.ref_time_corr(x, steps, case["dt"])
@@ -269,6 +283,9 @@ def subs(tier, seed):
         Sub("C14.time_axis", gen_time_axis, run,
             rule=hist + "first timestep 0 / 30 / 77 / 123456, dt 0.002 / 0.005 / 1.0, increments per event: t = (step - step_0) dt "
                         "(also checked in every state of the other sub-checks)", bounds={"Tmax": 5}),
+        Sub("C14.dtypes", gen_dtypes, run,
+            rule=hist + "the series stored as complex64 / float32 / int64 / int32 (integer letters: every product and sum is exact), scalar / vector / "
+                        "tensor, even and uneven spacing, N = 2: same table as for float64 / complex128", bounds={"Tmax": 3 if q else 4}),
         Sub("C14.scale", gen_scale, run_scale,
             rule="long series: every length T in " + str(SCALE_T if not q else [64, 65, 129, 257]) + " (around the powers of two where a blocked / "
                  "chunked implementation changes regime) x scalar/vector/tensor x real/complex x {even, every-gap-different, even-except-last-gap}; "
